@@ -25,6 +25,7 @@ import AskarModel.Model.Jwk
 import AskarModel.Lemmas.Jwk
 import AskarModel.Lemmas.JwkEnc
 import AskarModel.Lemmas.JwkGap
+import AskarModel.Generated.Tables
 
 namespace Askar.C14
 open Askar.Jwk
@@ -481,5 +482,87 @@ example : ∃ k, fromSecretBytes Cfg.current toyBls .blsG1G2 (List.replicate 32 
 example : (convertKey toy toyC { edKey with secret := none } .x25519) = .ok { alg := .x25519, secret := none, pub := List.replicate 32 7 } := by rfl
 example : ∃ k, convertKey toy toyC edKey .x25519 = .ok k ∧ k.secret.isSome = true := ⟨_, rfl, rfl⟩
 example : convertKey toy toyC edKey .p256 = .err .unsupported := by rfl
+
+/-! ### members with a NON-STRING JSON value (`kty kid alg crv x y d k use` = number, bool, null, array, object)
+
+`access.next_value::<&str>()` fails in the deserializer, `JwkParts::try_from_str` maps that to Invalid "Error parsing JWK":
+never InvalidKeyData, never a panic, never a key — for the dispatcher and for every concrete type alike. -/
+
+/-- token level: wherever the member stands, whatever else the object contains, for every configuration -/
+theorem non_string_member_refused (cfg : Cfg) (P : Prims) (l₁ l₂ : List (Bytes × JVal)) {key : Bytes} {f : Field}
+    (hf : fieldOf key = some f) (hk : f ≠ .keyOps) (v : JVal) (hv : ∀ s, v ≠ .str s) :
+    fromMembers cfg P (l₁ ++ (key, v) :: l₂) = .err .invalid := Jwk.fromMembers_non_string cfg P l₁ l₂ hf hk v hv
+
+/-- byte level (the parser's own fuel): after any clean string members, a string-valued member name followed by a value text whose
+    first byte is neither blank nor `"` (so: a number, `true` / `false`, `null`, `[…`, `{…`), followed by ANY further attribute
+    texts: the parse fails, so the dispatcher's import and every concrete type's import answer Invalid -/
+theorem non_string_member_refused_bytes (cfg : Cfg) (P : Prims) (ms : List Member) (hc : MembersClean ms = true) {name : Bytes}
+    {f : Field} (hn : Clean name = true) (hf : fieldOf name = some f) (hk : f ≠ .keyOps) (c : UInt8) (v : Bytes)
+    (hw : isWs c = false) (hq : c ≠ 34) (ts : List Bytes) :
+    parseJwk cfg (objectWithBadValue ms name c v ts) = none ∧
+    fromJwk cfg P (objectWithBadValue ms name c v ts) = .err .invalid ∧
+    ∀ alg, fromJwkTyped cfg P alg (objectWithBadValue ms name c v ts) = .err .invalid := by
+  have h := Jwk.parse_non_string cfg ms hc hn hf hk c v hw hq ts
+  exact ⟨h, by simp [fromJwk, h], fun alg => by simp [fromJwkTyped, h]⟩
+
+/-- the five value shapes for `"x"` after `kty` / `crv`, literally -/
+example : ∀ v ∈ [sb "5", sb "true", sb "null", sb "[\"a\"]", sb "{}"],
+    parseJwk Cfg.current (sb "{\"kty\":\"OKP\",\"crv\":\"Ed25519\",\"x\":" ++ v ++ sb "}") = none := by decide
+example : objectWithBadValue [("kty", sb "OKP")] (sb "x") 53 [] [] = sb "{\"kty\":\"OKP\",\"x\":5}" ∧
+    fieldOf (sb "x") = some .x ∧ Clean (sb "x") = true ∧ isWs 53 = false := by decide
+
+/-! ### the concrete key types' own `from_jwk` (no dispatcher in front) given a foreign `kty` / `crv` -/
+
+/-- for each of the 8 types: a `kty` the type does not accept (`Alg.ktyOk`: EC types "EC", Ed25519 / X25519 "OKP", BLS "OKP" or "EC")
+    or a `crv` that is not the type's own (or absent) is InvalidKeyData, whatever the other members hold -/
+theorem foreign_kty_crv_refused (cfg : Cfg) (P : Prims) (alg : Alg) (j : Parts) (ha : alg.isSymmetric = false)
+    (h : alg.ktyOk j.kty = false ∨ j.crv ≠ some (sb alg.jwkCrv)) : fromJwkParts cfg P alg j = .err .invalidKeyData :=
+  Jwk.fromJwkParts_foreign cfg P alg j ha h
+
+/-- every (concrete type, JWK exported from a key of ANOTHER asymmetric algorithm) pair, secret and public form, at text level through
+    the byte-level parser: InvalidKeyData — never a key -/
+theorem foreign_jwk_refused (cfg : Cfg) (P : Prims) (alg : Alg) (k : Key) (withD : Bool) (ha : alg.isSymmetric = false)
+    (hk : k.alg.isSymmetric = false) (hne : alg ≠ k.alg) :
+    ∃ t, toJwk k (if withD then .secretKey else .publicKey) none = .ok t ∧ fromJwkTyped cfg P alg t = .err .invalidKeyData :=
+  Jwk.fromJwkTyped_foreign_export cfg P alg k withD ha hk hne
+
+/-- a symmetric key's JWK (`kty` = "oct", no `crv`) offered to any of the 8 types: InvalidKeyData -/
+theorem oct_jwk_refused_by_types (cfg : Cfg) (P : Prims) (alg : Alg) (j : Parts) (ha : alg.isSymmetric = false)
+    (h : j.kty = sb "oct") : fromJwkParts cfg P alg j = .err .invalidKeyData := by
+  apply Jwk.fromJwkParts_foreign cfg P alg j ha
+  left
+  rw [h]
+  cases alg <;> simp [Alg.isSymmetric] at ha <;> decide
+
+/-- on the JWKs the dispatcher routes to a type, the type's own import is the dispatcher's import; and it never panics -/
+theorem typed_import_agrees_with_dispatch (cfg : Cfg) (P : Prims) (alg : Alg) (text : Bytes) (j : Parts)
+    (hp : parseJwk cfg text = some j) (hs : selectAlg j = some alg) : fromJwkTyped cfg P alg text = fromJwk cfg P text :=
+  Jwk.fromJwkTyped_own cfg P alg text j hp hs
+
+theorem typed_import_total (cfg : Cfg) (P : Prims) (alg : Alg) (text : Bytes) : (fromJwkTyped cfg P alg text).isPanic = false :=
+  Jwk.fromJwkTyped_no_panic cfg P alg text
+
+example : fromJwkParts Cfg.current toy .p256 (exportParts edKey true) = .err .invalidKeyData :=
+  Jwk.fromJwkParts_foreign_export _ _ _ _ _ rfl rfl (by decide)
+example : Alg.ktyOk .blsG1 (sb "EC") = true ∧ Alg.ktyOk .ed25519 (sb "EC") = false ∧ Alg.ktyOk .p256 (sb "OKP") = false := by decide
+
+/-! ### `public_bytes_length` / `secret_bytes_length` announce what the exports produce -/
+
+theorem public_bytes_length_exact {k : Key} {pb : Bytes} (h : toPublicBytes k = .ok pb) (hs : k.pub.length = k.alg.pubLen) :
+    publicBytesLen k = .ok pb.length := Jwk.publicBytesLen_exact h hs
+
+theorem secret_bytes_length_exact {cfg : Cfg} {P : Prims} {alg : Alg} {b : Bytes} {k : Key}
+    (h : fromSecretBytes cfg P alg b = .ok k) : toSecretBytes k = .ok b ∧ secretBytesLen k = .ok b.length :=
+  Jwk.secretBytesLen_exact h
+
+example : publicBytesLen p256Key = .ok 33 ∧ publicBytesLen edKey = .ok 32 := ⟨rfl, rfl⟩
+
+
+/-! ### the secret-key widths are the source's (regenerated from askar-crypto/src/alg/*.rs on every run) -/
+
+/-- `Alg.secretLen` of the key types that declare `SECRET_KEY_LENGTH` as a literal equals the CURRENT source's constant -/
+theorem secret_key_lengths_match_source :
+    [("p256", Jwk.Alg.p256.secretLen), ("k256", Jwk.Alg.k256.secretLen), ("p384", Jwk.Alg.p384.secretLen),
+     ("x25519", Jwk.Alg.x25519.secretLen)] = Askar.Generated.Tables.secretKeyLengths := by decide
 
 end Askar.C14
